@@ -1,17 +1,18 @@
 package main
 
 import (
-	"go/token"
-	"sort"
-	"regexp/syntax"
-	"sync"
-	gopath "path"
 	"fmt"
+	"go/token"
 	"go/types"
 	"math"
+	"net/url"
+	gopath "path"
 	"regexp"
+	"regexp/syntax"
+	"sort"
 	"strconv"
 	"strings"
+	"sync"
 	"unicode/utf8"
 
 	"golang.org/x/text/encoding/simplifiedchinese"
@@ -123,7 +124,6 @@ var errorT types.Type = types.NewNamed(types.NewTypeName(0, nil, "errorString", 
 func mkError(msg string) value {
 	return iface{t: errorT, v: msg}
 }
-
 
 // symbolic-aware helpers used by models: comparisons fork through e.truth
 func (e *Engine) byteEq(a, b value) bool {
@@ -442,9 +442,23 @@ var natives = map[string]extFn{
 	"os.ReadFile":        vfsRead,
 	"context.Background": func(e *Engine, _ *frame, fn *ssa.Function, a []value) value { return iface{t: errorT, v: "ctx"} },
 	"net/url.QueryUnescape": func(e *Engine, _ *frame, fn *ssa.Function, a []value) value {
-		return tuple{a[0], iface{}}
+		if s, ok := a[0].(string); ok {
+			r, err := url.QueryUnescape(s)
+			if err != nil {
+				return tuple{"", iface{t: errorT, v: err.Error()}}
+			}
+			return tuple{r, iface{}}
+		}
+		return tuple{a[0], iface{}} // (text with symbolic bytes: taken as free of escapes)
 	},
 	"net/url.PathUnescape": func(e *Engine, _ *frame, fn *ssa.Function, a []value) value {
+		if s, ok := a[0].(string); ok {
+			r, err := url.PathUnescape(s)
+			if err != nil {
+				return tuple{"", iface{t: errorT, v: err.Error()}}
+			}
+			return tuple{r, iface{}}
+		}
 		return tuple{a[0], iface{}}
 	},
 	"sort.Strings": func(e *Engine, _ *frame, _ *ssa.Function, a []value) value {
@@ -466,8 +480,10 @@ var natives = map[string]extFn{
 		}
 		return nil
 	},
-	"time.Now":   func(e *Engine, _ *frame, fn *ssa.Function, a []value) value { return zero(fn.Signature.Results().At(0).Type()) },
-	"time.Since": func(e *Engine, _ *frame, fn *ssa.Function, a []value) value { return uint64(0) },
+	"time.Now": func(e *Engine, _ *frame, fn *ssa.Function, a []value) value {
+		return zero(fn.Signature.Results().At(0).Type())
+	},
+	"time.Since":                   func(e *Engine, _ *frame, fn *ssa.Function, a []value) value { return uint64(0) },
 	"(time.Duration).Milliseconds": func(e *Engine, _ *frame, fn *ssa.Function, a []value) value { return uint64(0) },
 	"(*sync.WaitGroup).Add": func(e *Engine, _ *frame, _ *ssa.Function, a []value) value {
 		e.wgAdd(a[0].(*value), int(sext(a[1].(uint64), 64)))
@@ -475,8 +491,8 @@ var natives = map[string]extFn{
 	},
 	"(*sync.WaitGroup).Done": func(e *Engine, _ *frame, _ *ssa.Function, a []value) value { e.wgAdd(a[0].(*value), -1); return nil },
 	"(*sync.WaitGroup).Wait": func(e *Engine, _ *frame, _ *ssa.Function, a []value) value { e.wgWait(a[0].(*value)); return nil },
-	"(*sync.Mutex).Lock": func(e *Engine, _ *frame, _ *ssa.Function, a []value) value { e.raceLock(a[0].(*value)); return nil },
-	"(*sync.Mutex).Unlock": func(e *Engine, _ *frame, _ *ssa.Function, a []value) value { e.raceUnlock(a[0].(*value)); return nil },
+	"(*sync.Mutex).Lock":     func(e *Engine, _ *frame, _ *ssa.Function, a []value) value { e.raceLock(a[0].(*value)); return nil },
+	"(*sync.Mutex).Unlock":   func(e *Engine, _ *frame, _ *ssa.Function, a []value) value { e.raceUnlock(a[0].(*value)); return nil },
 	"(*sync.Mutex).TryLock": func(e *Engine, _ *frame, _ *ssa.Function, a []value) value {
 		if e.lockBusy {
 			return false
@@ -498,11 +514,14 @@ var natives = map[string]extFn{
 		e.raceLockMode(a[0].(*value), true)
 		return true
 	},
-	"(*sync.RWMutex).Lock": func(e *Engine, _ *frame, _ *ssa.Function, a []value) value { e.raceLock(a[0].(*value)); return nil },
+	"(*sync.RWMutex).Lock":   func(e *Engine, _ *frame, _ *ssa.Function, a []value) value { e.raceLock(a[0].(*value)); return nil },
 	"(*sync.RWMutex).Unlock": func(e *Engine, _ *frame, _ *ssa.Function, a []value) value { e.raceUnlock(a[0].(*value)); return nil },
-	"(*sync.RWMutex).RLock": func(e *Engine, _ *frame, _ *ssa.Function, a []value) value { e.raceLockMode(a[0].(*value), true); return nil },
+	"(*sync.RWMutex).RLock": func(e *Engine, _ *frame, _ *ssa.Function, a []value) value {
+		e.raceLockMode(a[0].(*value), true)
+		return nil
+	},
 	"(*sync.RWMutex).RUnlock": func(e *Engine, _ *frame, _ *ssa.Function, a []value) value { e.raceUnlock(a[0].(*value)); return nil },
-	"errors.New": func(e *Engine, _ *frame, fn *ssa.Function, a []value) value { return mkError(a[0].(string)) },
+	"errors.New":              func(e *Engine, _ *frame, fn *ssa.Function, a []value) value { return mkError(a[0].(string)) },
 	"strings.Join": func(e *Engine, _ *frame, fn *ssa.Function, a []value) value {
 		var out []value
 		sep := strBytes(a[1])
@@ -560,7 +579,9 @@ var natives = map[string]extFn{
 		return tuple{ok, iface{}}
 	},
 	"fmt.Sprintf": func(e *Engine, _ *frame, _ *ssa.Function, a []value) value { return sprintfModel(e, a) },
-	"fmt.Errorf":  func(e *Engine, _ *frame, _ *ssa.Function, a []value) value { return iface{t: errorT, v: sprintfModel(e, a)} },
+	"fmt.Errorf": func(e *Engine, _ *frame, _ *ssa.Function, a []value) value {
+		return iface{t: errorT, v: sprintfModel(e, a)}
+	},
 	"strings.NewReplacer": func(e *Engine, _ *frame, _ *ssa.Function, a []value) value {
 		var ss []string
 		for _, v := range a[0].([]value) {
